@@ -447,7 +447,7 @@ def run(tier, cmd):
                             'value survives bytes / Raw / to_structured round trips unchanged; raw->structured->raw is idempotent; the quarter-frame '
                             'and message-type codecs round-trip on their own. Not decided: a third-party factory\'s own from_bytes_unchecked '
                             '(outside the repository).')
-    Fs = load_configs(chk, ['K1'] + (['K2'] if tier == 'thorough' else []), required=('K1',))
+    Fs = load_configs(chk, ['K1', 'K2'], required=('K1',))
     for cfg, F in sorted(Fs.items()):
         guarded(chk, '%s/from-bytes/%s' % (PID, cfg), 'from_bytes outcome summary', lambda F=F: from_bytes_clause(chk, F))
         raw_clause(chk, F)
